@@ -147,6 +147,7 @@ def run(prog, scope_units=None, scope_funcs=None, rule="R-BUF", exceptions=EXCEP
     res = RuleResult(rule, "every copy or format into a buffer is bounded by the buffer (explicit size, fitting literal / integer "
                            "sources, no larger source array, or destination sized from strlen of the source)")
     cls = {}
+    undecided = []
     for f in sorted(prog.funcs.values(), key=lambda x: x.key):
         if "_dbl." in f.unit or "_mpf." in f.unit:
             continue
@@ -188,6 +189,13 @@ def run(prog, scope_units=None, scope_funcs=None, rule="R-BUF", exceptions=EXCEP
                         continue
                 elif len(args) > k and any(nd[0] == "b" and nd[1] == "+" for nd in walk(args[k])) and n in ("snprintf", "vsnprintf"):
                     verdict = "size expression computed from the required length (two-pass formatting)"
+                elif dsz is None and n in ("memcpy", "memmove") and exceptions.get((f.name, n, dtxt)) is None:
+                    # block copy of a computed number of bytes into a heap block: whether the block is large enough is a relation
+                    # between two run-time sizes that this rule cannot see (R-LENCLASS decides it for the problem arrays, whose
+                    # dimensions it knows); reporting it would be a guess, so it is counted and left undecided
+                    undecided.append("%s %s: %s" % (short_loc(c[4]), f.name, show(c)[:90]))
+                    res.obligations -= 1
+                    continue
             elif n == "strcpy" or n == "strcat":
                 src = strip(args[1]) if len(args) > 1 else None
                 if src and src[0] == "s" and dsz is not None and len(src[1]) < dsz:
@@ -216,5 +224,7 @@ def run(prog, scope_units=None, scope_funcs=None, rule="R-BUF", exceptions=EXCEP
                                             "%s: %s write into %s%s; the source is not bounded by anything visible in this function" % (
                                                 show(c)[:140], kind, dtxt, (" (%d bytes)" % dsz) if dsz else "")))
     res.counts["auto_discharged_by"] = cls
+    res.counts["heap_block_copies_not_decided"] = len(undecided)
+    res.counts["heap_block_copies_sample"] = undecided[:4]
     res.floor("buffer-writing call sites", res.obligations, floor if floor is not None else (50 if not (scope_units or scope_funcs) else 5))
     return res
